@@ -791,13 +791,15 @@ class TVGNode():
 
         if cds_end:
             stop_codon = FeatureLocation(start=cds_end, end=cds_end + 3)
-            if not self.get_node_start_reference_index() <= cds_end < \
+            if self.get_node_start_reference_index() <= cds_end < \
                     self.get_node_end_reference_index():
+                for variant in self.variants:
+                    if stop_codon.overlaps(variant.variant.location):
+                        variant.is_stop_altering = True
                 return
-            for variant in self.variants:
-                if stop_codon.overlaps(variant.variant.location):
-                    variant.is_stop_altering = True
-            return
+            # Not at the annotated stop codon: in a reading frame entered through
+            # an upstream frameshift, a variant may remove a stop codon of that
+            # frame; it is found the same way as for unknown ORFs.
 
         if self.global_variant and self.global_variant.is_fusion():
             return
@@ -807,7 +809,8 @@ class TVGNode():
                 continue
             ref_aa = self.get_ith_variant_ref_aa(i, tx_seq)
             var_aa = self.get_ith_variant_var_aa(i)
-            v.is_silent = v.variant.is_snv() and ref_aa == var_aa
+            if not cds_end:
+                v.is_silent = v.variant.is_snv() and ref_aa == var_aa
             v.is_stop_altering = \
                 (v.variant.is_snv() and ref_aa == '*' and var_aa != '*') \
                 or (v.variant.is_insertion() and ref_aa =='*'
